@@ -442,7 +442,9 @@ def fault_sweep(chk, prefix, binary, cwd, argv, shimdir, tmpdir, env=None, only=
         pts = [("before_exec", None)] + [("after", n) for n in sorted({0, min(L, 30), L // 2, max(0, L - 1), L})]
         for kind, n in pts:
             k += 1
-            rule = {"sig": e["sig"], "ord": e["ord"], "mode": "fault", "term": ["exit:128", "sig:KILL", "exit:2"][k % 3]}
+            # (status 1 is the documented "not set" answer of `git config --get`; for every other child it is a failure)
+            terms = ["exit:128", "sig:KILL", "exit:2"] + ([] if e["sig"].startswith("config --get") else ["exit:1"])
+            rule = {"sig": e["sig"], "ord": e["ord"], "mode": "fault", "term": terms[k % len(terms)]}
             if kind == "before_exec":
                 rule["before_exec"] = True
             else:
